@@ -406,6 +406,50 @@ def bad_copy(ctx: Ctx, only=None):
                 ctx.report(f"a rejected value was recorded anyway in `{expr}` (flags {flags}): {r['session_exc'] or after[-200:]}", {"kind": "badcopy", "expr": expr, "flags": flags})
 
 
+UNCOPY = '''from inline_snapshot import snapshot
+import threading
+R = []
+
+class Box:
+    def __init__(self, items):
+        self.items = items
+        self.lock = threading.Lock()      # copy.deepcopy refuses this object
+    def __eq__(self, o):
+        return isinstance(o, Box) and self.items == o.items
+    def __repr__(self):
+        return f"Box({self.items!r})"
+    def __hash__(self):
+        return 1
+
+def test_a():
+    b = Box([1])
+    try:
+        %s
+        R.append("no error")
+    except BaseException as e:
+        R.append(type(e).__name__)
+    b.items.append(7)
+'''
+
+
+def uncopyable(ctx: Ctx, only=None):
+    """a value that copy.deepcopy refuses (it holds a lock) and that is mutated after the assertion: either the comparison raises and nothing is
+    recorded, or what is recorded is the state at comparison time - never the later state"""
+    for expr in ("assert b == snapshot()", "assert [b] == snapshot()", "assert b in snapshot()", "assert b == snapshot()['k']", "assert {'k': [b]} == snapshot()"):
+        src = UNCOPY % expr
+        for flags in (("create",), ("create", "fix")):
+            if only and only != (expr, flags):
+                continue
+            r = driver.run_inproc({"test_a.py": src}, flags, block_black=True)
+            ctx.count(("uncopyable", expr, flags), True)
+            after = r["files"]["test_a.py"].decode()
+            if r["session_exc"]:
+                ctx.report(f"a value that deepcopy refuses in `{expr}` (flags {flags}): the session phase raised {r['session_exc']}", {"kind": "uncopyable", "expr": expr, "flags": flags})
+            elif after.count("7") != src.count("7"):
+                ctx.report(f"a value that deepcopy refuses was recorded in `{expr}` (flags {flags}) and what is written is its state after a later mutation, not the value at "
+                           f"comparison time: {after.split('def test_a')[1][:300]}", {"kind": "uncopyable", "expr": expr, "flags": flags})
+
+
 # ----------------------------------------------------------------------------- S: the recording sites in the source (fail-closed)
 def static_clone_check(ctx: Ctx):
     """Model/Heap.v's recorder stores clone(v) at every observation.  Read the recording sites from the CURRENT source: every value
@@ -496,6 +540,7 @@ def run(ctx: Ctx):
     ctx.coverage["oracle"]["mutation_schedules"] = m
     ctx.sample({"schedule": scheds[0]["source"].split("def test_a")[1], "recorded": outs[0].get("arg"), "logged": outs[0].get("log")})
     bad_copy(ctx)
+    uncopyable(ctx)
 
 
 def replay(ctx: Ctx, data):
@@ -513,6 +558,12 @@ def replay(ctx: Ctx, data):
         o = run_trace(c["case"])
         print(o)
         return o["recs"] == o["at_comparison"]
+    if c.get("kind") == "uncopyable":
+        ctx2 = Ctx("C17", ctx.tier, ctx.seed)
+        uncopyable(ctx2, only=(c["expr"], tuple(c["flags"])))
+        import shutil
+        shutil.rmtree(ctx2.tmp, ignore_errors=True)
+        return not ctx2.violations
     if c.get("kind") == "badcopy":
         ctx2 = Ctx("C17", "quick", 0)
         bad_copy(ctx2, only=(c["expr"], tuple(c["flags"])))
